@@ -314,6 +314,14 @@ impl DecodeBuffer {
     }
 }
 
+#[cfg(feature = "verif_hooks")]
+impl DecodeBuffer {
+    /// Verification-only read-only access to the underlying ring buffer.
+    pub fn verif_ring(&self) -> &RingBuffer {
+        &self.buffer
+    }
+}
+
 /// Like Write::write_all but returns partial write length even on error
 fn write_all_bytes(mut sink: impl Write, buf: &[u8]) -> (usize, Result<(), Error>) {
     let mut written = 0;
